@@ -11,7 +11,7 @@ RULE = ("metamorphic on the real code: a generated base program M (any flow kind
         "to one, or age) are built; at non-negative stratified states the comp_rates of M' summed over the new strata must equal the comp_rates "
         "of M at the aggregated state; euler / rk4 / adaptive trajectories from the split population and flow / compartment derived outputs "
         "aggregate likewise; strain variant: per-strain infection flow rates add up to the unstratified ones; proportionate-mixing variant: "
-        "M[i][j] = p_j along the trajectory from the split population; distinct by program hash + variant, non-trivial when M has >= 2 flows")
+        "M[i][j] = p_j (frequency) / 1 (density) along the trajectory from the split population, with entry/absolute flows only when the split is even; distinct by program hash + variant, non-trivial when M has >= 2 flows")
 TRUSTED = []
 ASSUMPTIONS = ["stratified states are non-negative (clean(-1)+clean(2) != clean(1)); negative states are C01's business",
                "adaptive trajectories are compared to tolerance (step sizes differ between the two models)"]
@@ -40,9 +40,14 @@ def task(W, payload):
     r = random.Random(f"C03:{payload['seed']}:{payload['index']}")
     has_age_ok = variant == "age"
     opts = Opts(max_strats=2, max_flows=6, n_requests=0, allow_requests=False, allow_computed=False, allow_age=not has_age_ok,
-                allow_strain=(variant != "strain"), allow_state=False, allow_rebalance=False)
+                allow_strain=(variant != "strain"), allow_state=False, allow_rebalance=False, small_dt=True, max_steps=6)
     if variant in ("strain", "proportionate"):
         opts.force_infection = True
+    even_split = r.random() < 0.4
+    if variant == "proportionate" and not even_split:
+        # a proportionate matrix M[i][j] = p_j stays proportionate along the trajectory only while the population stays split by p:
+        # entry and absolute flows are shared EQUALLY between strata (documented rule), which keeps an uneven split only if they are absent
+        opts.kinds = ["transition", "death", "universal_death", "infection", "infection"]
     if variant == "strain":
         # per-strain forces of infection add up only when no other stratification interferes with infectiousness by strain
         opts.max_strats = 1
@@ -73,12 +78,19 @@ def task(W, payload):
         new = {"op": "stratify", "kind": "plain", "name": nm, "strata": strata, "comps": comps}
         from gen import SPLITS
         props = r.choice(SPLITS[k])
+        if variant == "proportionate" and even_split:
+            props = [Fr(1, k)] * k
         if r.random() < 0.7 or variant == "proportionate":
             new["split"] = [[s, {"c": q(p)}] for s, p in zip(strata, props)]
         else:
             props = [Fr(1, k)] * k
         if variant == "proportionate":
-            new["mixing"] = [[{"c": q(p)} for p in props] for _ in strata]
+            # homogeneous ("proportionate") mixing: frequency-dependent transmission M[i][j] = p_j (population share of j);
+            # density-dependent transmission M[i][j] = 1 (every infectious person counts once)
+            if g.inf_kind == "inf_freq":
+                new["mixing"] = [[{"c": q(p)} for p in props] for _ in strata]
+            else:
+                new["mixing"] = [[{"c": "1"} for p in props] for _ in strata]
     I0, e0 = build(ops)
     I1, e1 = build(ops + [new])
     if I0 is None or I1 is None:
@@ -130,7 +142,8 @@ def task(W, payload):
         J0, _ = build(ops + req); J1, _ = build(ops + [new] + req)
         if J0 is not None and J1 is not None:
             for solver in ("euler", "rk4", "odeint"):
-                r0 = J0.apply({"op": "run", "params": pl, "solver": solver}); r1 = J1.apply({"op": "run", "params": pl, "solver": solver})
+                kw = {"rtol": "7/500000000", "atol": "7/500000000"} if solver == "odeint" else {}
+                r0 = J0.apply(dict({"op": "run", "params": pl, "solver": solver}, **kw)); r1 = J1.apply(dict({"op": "run", "params": pl, "solver": solver}, **kw))
                 out["evals"] += 1
                 if not (r0["ok"] and r1["ok"]):
                     bump(out, "run_failed"); continue
@@ -141,7 +154,7 @@ def task(W, payload):
                     bump(out, "negative_states_skipped"); continue   # outside the quantifier (non-negative states)
                 agg = o1 @ A.T
                 N = max(1.0, float(np.abs(o0).max()))
-                tol = 1e-9 * N if solver != "odeint" else 50 * (1.4e-4 + 1.4e-4 * N)
+                tol = 1e-9 * N if solver != "odeint" else 1e-4 * N   # adaptive: both models solved at the PRECISE tolerance (1.4e-8)
                 if np.abs(agg - o0).max() > tol:
                     fail(out, f"aggregated trajectory of the stratified model differs from the unstratified model's ({solver})", "c03", payload,
                          worst=float(np.abs(agg - o0).max()), tol=tol, program=ops, extra=new, params=params)
